@@ -111,6 +111,9 @@ def metamorphic(ctx):
             A.append("scene %d %s ; xf %s ; cliprect 1 1 2 2 ; %s" % (len(A), hdr, xt, op))
             B.append("scene %d %s ; %s" % (len(B), hdr, op))
             kinds.append("copy_surface / blend_surface ignore transform and clip")
+    for kind_, a_, b_ in core.corpus_pairs("C11"):      # pairs kept from earlier failures run too
+        ta, tb = a_.split(" ", 2), b_.split(" ", 2)
+        A.append("%s %d %s" % (ta[0], len(A), ta[2])); B.append("%s %d %s" % (tb[0], len(B), tb[2])); kinds.append(kind_)
     ra, _ = build.run_sharded(build.RQV, sc.augment(A))
     rb, _ = build.run_sharded(build.RQV, sc.augment(B))
     ctx.cov["metamorphic_pairs"] = len(A)
